@@ -50,6 +50,9 @@ def handle (ts : List String) : Option String :=
     let x := F32.ofBits b
     if b / 8388608 < 139 ∨ 190 ≤ b / 8388608 then none
     else some s!"{F32.bits (F32.mul12 x)} {F32.trunc x}"
+  | ["f32init", n] => do
+    let n ← n.toNat?
+    if 14336000 ≤ n then some "unmodelled" else some s!"{F32.bits F32.f4096}"
   | ["f32sched", n, ls] => do
     let n ← n.toNat?
     let ls ← ls.toNat?
